@@ -1,6 +1,7 @@
 (* C20 — delivery contract: retry policy, record-after-success, faithful bounded payload.
    Statements only; proofs are in Proofs/{Truncate,TemplateData,Retry}Proofs.v. *)
-From AM Require Import Base.Prelude Model.Utf8 Model.Truncate Proofs.TruncateProofs.
+From AM Require Import Base.Prelude Model.TemplateData Model.Retry Model.Utf8 Model.Truncate
+  Proofs.TruncateProofs Proofs.TemplateDataProofs Proofs.RetryProofs.
 
 (* ===== text truncation never exceeds its limit or splits a character (for ALL byte strings s, limits n >= 0) =====
    Strings are arbitrary byte lists (invalid UTF-8 included); `to_runes` is Go's []rune(s), `of_runes` is string(runes).
@@ -61,6 +62,160 @@ Theorem c20_retrier_check_spec : forall (codes : list Z) (c : Z),
   (retry = true <-> ~ (200 <= c < 300) /\ (500 <= c < 600 \/ c ∈ codes)).
 Proof. exact retrier_check_spec. Qed.
 
+(* ===== retry policy: for ALL outcome scripts, ALL tick sequences of the backoff ticker and ALL deadlines =====
+   r_attempts lists the Notify calls (instant, outcome) of one RetryStage.Exec; `ticks` is the oracle sequence of
+   instants at which the backoff ticker delivers; dl is the instant the flush context is done. *)
+Section C20Retry.
+  Variables (send_resolved : bool) (firing_ctx : option nat) (alerts : list alert) (start dl : Z)
+            (ticks : list Z) (script : list outcome).
+  Let r := retry_exec send_resolved firing_ctx alerts start dl ticks script.
+
+  (* the k-th call gets the k-th scripted outcome *)
+  Theorem c20_retry_attempt_outcome : forall k a o,
+    r_attempts r !! k = Some (a, o) -> o = script_at script k.
+  Proof. exact (retry_attempt_outcome send_resolved firing_ctx alerts start dl ticks script). Qed.
+
+  (* recoverable failure => retried: there is a next attempt iff the context is still live and the next
+     backoff tick occurs no later than the deadline *)
+  Theorem c20_retry_recoverable_retried_iff_tick_before_deadline : forall k a,
+    r_attempts r !! k = Some (a, ORecov) ->
+    (is_Some (r_attempts r !! S k) <-> a < dl /\ exists t', ticks !! S k = Some t' /\ t' <= dl).
+  Proof. exact (retry_recoverable_next send_resolved firing_ctx alerts start dl ticks script). Qed.
+
+  (* success, unrecoverable failure (and a hang, which ends with the context) => no further attempt *)
+  Theorem c20_retry_stops_after_success_or_unrecoverable : forall k a o,
+    r_attempts r !! k = Some (a, o) -> o <> ORecov -> r_attempts r !! S k = None.
+  Proof. exact (retry_stops send_resolved firing_ctx alerts start dl ticks script). Qed.
+
+  (* the verdict: the stage (hence the flush) reports no error iff the last attempt succeeded; a last attempt
+     that failed unrecoverably gives the "unrecoverable" error, one that failed recoverably (retries ran out
+     at the deadline) or hung gives the "canceled" error; no attempt at all (deadline already passed) too *)
+  Theorem c20_retry_error_iff_not_succeeded :
+    runs send_resolved firing_ctx = true ->
+    (r_err r = None <-> last_outcome (r_attempts r) = Some OOk).
+  Proof. exact (retry_error_iff send_resolved firing_ctx alerts start dl ticks script). Qed.
+  Theorem c20_retry_error_class :
+    runs send_resolved firing_ctx = true ->
+    match last_outcome (r_attempts r) with
+    | None => r_err r = Some (ECanceled None)
+    | Some OOk => r_err r = None
+    | Some OUnrecov | Some (OHang false) => r_err r = Some EUnrecov
+    | Some ORecov | Some (OHang true) => exists last, r_err r = Some (ECanceled last)
+    end.
+  Proof. exact (retry_error_class send_resolved firing_ctx alerts start dl ticks script). Qed.
+
+  (* I12: no attempt STARTS strictly after the deadline (an attempt at the deadline instant itself is allowed) *)
+  Theorem c20_retry_no_attempt_after_deadline : forall k a o,
+    r_attempts r !! k = Some (a, o) -> start <= a <= dl.
+  Proof. exact (retry_no_attempt_after_deadline send_resolved firing_ctx alerts start dl ticks script). Qed.
+
+  (* what the integration is handed: the batch, minus the resolved alerts when send_resolved is off *)
+  Theorem c20_retry_sent_is_batch_minus_resolved :
+    r_attempts r <> [] ->
+    r_sent r = if send_resolved then alerts else filter (fun a => firing_at start a) alerts.
+  Proof. exact (retry_sent send_resolved firing_ctx alerts start dl ticks script). Qed.
+
+  (* only resolved alerts and send_resolved off: nothing is sent, no error, the batch goes on to be recorded *)
+  Theorem c20_retry_nothing_to_send :
+    send_resolved = false -> firing_ctx = Some O ->
+    r_attempts r = [] /\ r_err r = None /\ r_out r = alerts.
+  Proof. exact (retry_nothing_to_send send_resolved firing_ctx alerts start dl ticks script). Qed.
+End C20Retry.
+
+(* ===== record-after-success and sibling isolation (receiver pipeline = FanoutStage of per-integration
+   MultiStage{Wait, Dedup, Retry, SetNotifies}) ===== *)
+
+(* In the events of integration i's chain a Log event is the LAST event and is IMMEDIATELY preceded by a
+   successful Notify of i in the same flush — or it is the bookkeeping write of a send_resolved=false
+   integration when no alert of the batch fires (then there is no Notify at all). Hence a crash or failure
+   between send and record can only duplicate a notification, never lose one. *)
+Theorem c20_record_after_success : forall i g alerts start dl pre post t,
+  c_events (chain i g alerts start dl) = pre ++ EvLog i t :: post ->
+  post = [] /\
+  ((exists pre' a, pre = pre' ++ [EvNotify i a OOk]) \/
+   (pre = [] /\ g_send_resolved g = false /\ filter (fun a => firing_at start a) alerts = [])).
+Proof. exact chain_record_after_success. Qed.
+
+(* integration i records iff its own chain (its own dedup verdict and its own retry run) succeeds *)
+Theorem c20_records_iff_own_chain_succeeds : forall i g alerts start dl,
+  (exists t, EvLog i t ∈ c_events (chain i g alerts start dl)) <->
+  alerts <> [] /\ g_needs_update g = true /\
+  r_err (retry_exec (g_send_resolved g) (Some (length (filter (fun a => firing_at start a) alerts)))
+                    alerts start dl (g_ticks g) (g_script g)) = None.
+Proof. exact chain_logs_iff. Qed.
+
+(* sibling isolation: what integration j does in a flush (its Notify calls, its Log, its verdict) is the same
+   whatever the other integrations of the receiver are and do — for ALL sibling lists gs, gs' *)
+Theorem c20_sibling_isolation : forall gs gs' alerts start dl j g,
+  gs !! j = Some g -> gs' !! j = Some g ->
+  fanout gs alerts start dl !! j = fanout gs' alerts start dl !! j.
+Proof. exact fanout_isolation. Qed.
+Theorem c20_fanout_is_own_chain : forall gs alerts start dl j g,
+  gs !! j = Some g -> fanout gs alerts start dl !! j = Some (chain j g alerts start dl).
+Proof. intros. exact (fanout_from_lookup gs 0 alerts start dl j g H). Qed.
+Theorem c20_chain_events_are_own : forall i g alerts start dl e,
+  e ∈ c_events (chain i g alerts start dl) -> match e with EvNotify j _ _ | EvLog j _ => j = i end.
+Proof. exact chain_events_own. Qed.
+
+(* the flush fails iff some chain fails *)
+Theorem c20_flush_fails_iff_some_chain_fails : forall gs alerts start dl,
+  fanout_failed (fanout gs alerts start dl) = true <->
+  exists j g, gs !! j = Some g /\ c_failed (chain j g alerts start dl) = true.
+Proof. exact fanout_failed_iff. Qed.
+
+(* ===== the data handed to templates and webhooks (for ALL batches) ===== *)
+
+(* lists exactly the alerts of the batch, in order, each with its labels, annotations, start, and its status
+   at the flush instant (EndsAt shown only once resolved) *)
+Theorem c20_payload_lists_batch : forall now g alerts,
+  d_alerts (template_data now g alerts) = map (view now) alerts /\
+  (forall a, t_labels (view now a) = a_labels a /\ t_annots (view now a) = a_annots a /\
+             t_starts (view now a) = a_starts a /\ t_firing (view now a) = firing_at now a /\
+             t_ends (view now a) = (if firing_at now a then 0 else a_ends a)) /\
+  d_group (template_data now g alerts) = g.
+Proof. intros. split; [apply data_alerts|]. split; [intros; apply view_faithful|apply data_group]. Qed.
+
+Theorem c20_status_firing_iff : forall now g alerts,
+  d_firing (template_data now g alerts) = true <->
+  exists t, t ∈ d_alerts (template_data now g alerts) /\ t_firing t = true.
+Proof. exact status_firing_iff. Qed.
+
+(* common labels / annotations = intersection over the listed alerts of (name, value) pairs (code after fix
+   dfda78a; label sets have unique names, as Go maps do) *)
+Theorem c20_common_labels_is_intersection : forall now g alerts k v,
+  Forall (fun a => uniq (a_labels a)) alerts ->
+  (k, v) ∈ d_common_labels (template_data now g alerts) <->
+  alerts <> [] /\ forall a, a ∈ alerts -> (k, v) ∈ a_labels a.
+Proof. intros now g alerts k v. exact (common_spec a_labels alerts k v). Qed.
+Theorem c20_common_annotations_is_intersection : forall now g alerts k v,
+  Forall (fun a => uniq (a_annots a)) alerts ->
+  (k, v) ∈ d_common_annots (template_data now g alerts) <->
+  alerts <> [] /\ forall a, a ∈ alerts -> (k, v) ∈ a_annots a.
+Proof. intros now g alerts k v. exact (common_spec a_annots alerts k v). Qed.
+
+(* webhook max_alerts: the first max alerts are listed and the number left out is reported; 0 = no limit *)
+Theorem c20_webhook_payload_bounded : forall max now g alerts,
+  0 <= max ->
+  let '(d, t) := webhook_message max now g alerts in
+  let listed := if max =? 0 then alerts else take (Z.to_nat max) alerts in
+  d = template_data now g listed /\
+  d_alerts d = map (view now) listed /\
+  t = Z.of_nat (length alerts) - Z.of_nat (length listed) /\
+  (max = 0 -> t = 0) /\ (0 < max -> Z.of_nat (length (d_alerts d)) <= max).
+Proof. exact webhook_message_spec. Qed.
+
+(* end to end for a webhook integration: what the receiver is shown = the batch minus resolved alerts when
+   send_resolved is off (RetryStage), minus those beyond max_alerts (webhook), count reported *)
+Theorem c20_payload_exact : forall sr fc alerts start dl ticks script max g,
+  0 <= max ->
+  r_attempts (retry_exec sr fc alerts start dl ticks script) <> [] ->
+  let sent := if sr then alerts else filter (fun a => firing_at start a) alerts in
+  let listed := if max =? 0 then sent else take (Z.to_nat max) sent in
+  r_sent (retry_exec sr fc alerts start dl ticks script) = sent /\
+  d_alerts (fst (webhook_message max start g sent)) = map (view start) listed /\
+  snd (webhook_message max start g sent) = Z.of_nat (length sent) - Z.of_nat (length listed).
+Proof. exact payload_exact. Qed.
+
 (* ----- non-vacuity ----- *)
 Example ex_trunc_bytes : truncate_bytes (bytes_of_string "a⌘cdef") 5 = Ok (bytes_of_string "a…", true).
 Proof. vm_compute. reflexivity. Qed.
@@ -75,6 +230,32 @@ Proof. vm_compute. reflexivity. Qed.
 Example ex_trunc_neg_panics : truncate_runes [97] (-1) = Panic /\ truncate_bytes [97] (-1) = Panic.
 Proof. vm_compute. split; reflexivity. Qed.
 
+Example ex_retry :
+  let r := retry_exec true None [] 100 200 [100; 130; 170; 260] [ORecov; ORecov; OOk] in
+  r_attempts r = [(100, ORecov); (130, ORecov); (170, OOk)] /\ r_err r = None.
+Proof. vm_compute. split; reflexivity. Qed.
+Example ex_retry_deadline :
+  let r := retry_exec true None [] 100 200 [100; 130; 260] [ORecov; ORecov; OOk] in
+  r_attempts r = [(100, ORecov); (130, ORecov)] /\ r_err r = Some (ECanceled (Some 2%nat)) /\ r_end r = 200.
+Proof. vm_compute. repeat split; reflexivity. Qed.
+Example ex_retry_unrecov :
+  r_err (retry_exec true None [] 100 200 [100; 130] [OUnrecov; OOk]) = Some EUnrecov.
+Proof. vm_compute. reflexivity. Qed.
+Example ex_fanout :
+  let a := mkAlert [("alertname", "x")] [] 1 0 in
+  let rs := fanout [mkInteg true true [100] [OUnrecov] true; mkInteg true true [100; 120] [ORecov; OOk] true] [a] 100 200 in
+  map c_events rs = [[EvNotify 0 100 OUnrecov]; [EvNotify 1 100 ORecov; EvNotify 1 120 OOk; EvLog 1 120]]
+  /\ fanout_failed rs = true.
+Proof. vm_compute. split; reflexivity. Qed.
+Example ex_common :
+  common a_annots [mkAlert [] [("note", ""); ("s", "x")] 1 0; mkAlert [] [("s", "x")] 1 0] = [("s", "x")].
+Proof. vm_compute. reflexivity. Qed.
+
 Print Assumptions c20_truncate_runes_spec.
 Print Assumptions c20_truncate_bytes_spec.
 Print Assumptions c20_retrier_check_spec.
+Print Assumptions c20_retry_recoverable_retried_iff_tick_before_deadline.
+Print Assumptions c20_record_after_success.
+Print Assumptions c20_sibling_isolation.
+Print Assumptions c20_common_labels_is_intersection.
+Print Assumptions c20_payload_exact.
